@@ -39,12 +39,17 @@ def experiment(res, nmodels, nsteps):
     ds = BK.random_states(rng, m, K)
     mm = mjw.put_model(m)
 
-    def run(idx):
+    def run(idx, n=None):
       dd = mjw.make_data(m, nworld=len(idx), nconmax=64, njmax=256)
       BK.load_states(mjw, m, dd, ds, idx)
-      for _ in range(nsteps):
+      for _ in range(nsteps if n is None else n):
         mjw.step(mm, dd)
       return dd
+
+    # batch-size comparison (tolerance, see below) over a short horizon only: low-order-bit
+    # differences of re-partitioned reductions are amplified by contact dynamics over many steps
+    short = min(nsteps, 2)
+    full_short = run(list(range(K)), short)
 
     ds = ds + BK.random_states(rng, m, 2)  # two more states used as "other content"
     full = run(list(range(K)))
@@ -56,8 +61,9 @@ def experiment(res, nmodels, nsteps):
     dup = run([1, 1, 0])
     other = run([0, 3, 4])  # world 0 next to entirely different neighbours
     for w in range(K):
-      one = run([w])
+      one = run([w], short)
       a = BK.snapshot(full, w)
+      a_short = BK.snapshot(full_short, w)
       cmp = [(BK.snapshot(perm, perm_idx.index(w)), f"permuted{perm_idx}", True)]
       if w == 0:
         cmp.append((BK.snapshot(other, 0), "same batch size, different neighbours", True))
@@ -65,7 +71,7 @@ def experiment(res, nmodels, nsteps):
       # (solver._jtdaj_groups_per_world splits the J^T D J reduction by nworld), see DESIGN C09
       cmp.append((BK.snapshot(one, 0), "alone", False))
       for other_s, what, exact in cmp:
-        df = BK.first_diff(a, other_s) if exact else BK.first_diff_tol(a, other_s, 2e-5)
+        df = BK.first_diff(a, other_s) if exact else BK.first_diff_tol(a_short, other_s, 2e-5)
         res.count()
         if df is not None:
           fails.append({"xml": xml, "world": w, "versus": what, "field": df[0], "maxdiff": df[1], "nsteps": nsteps, "seed": vlib.seed(), "model_index": k})
